@@ -19,7 +19,7 @@ def _link_flags(engine):
 def _props_sources(t):
     t.verif("harness/props/props.cpp")
     t.repo(CORE + "acquire-device-properties/device/props/storage.c",
-           ["-Dmalloc=vh_malloc", "-Drealloc=vh_realloc", "-Dfree=vh_free"])
+           ["-Dmalloc=vh_malloc", "-Drealloc=vh_realloc", "-Dfree=vh_free", "-Dcalloc=vh_calloc"])
     t.repo(CORE + "acquire-device-properties/device/props/components.c")
     t.repo(CORE + "acquire-core-logger/logger.c")
 
